@@ -506,6 +506,7 @@ class Program(object):
         self.must_nl = set()     # gap index g (between tok g-1 and tok g; g == len(toks) is the tail) needing a newline
         self.no_nl = set()       # gap indices where a newline is forbidden
         self.scopes = []         # (first_tok, last_tok) of each line-scoped construct
+        self.line_starts = set() # token indices that begin a line in the one-statement-per-line layout
         self.valid = True
         self.why = None
         self._names = 0
@@ -586,6 +587,8 @@ class _Renderer(object):
     def kw_close(self, cls):
         """A block-closing keyword: already closed for its own indentation."""
         self.depth -= 1
+        if self.scope is None:
+            self.p.line_starts.add(len(self.p.toks))
         t = self.emit(cls)
         return t
 
@@ -628,6 +631,8 @@ class _Renderer(object):
                 break
             if lab in ('b_stat', 'b_stat_semi'):
                 first_tok = len(self.p.toks)
+                if self.scope is None:
+                    self.p.line_starts.add(first_tok)
                 st = self.node(ks[0])
                 self.check_stat_start(first_tok, stats)
                 stats.append(st)
@@ -640,6 +645,8 @@ class _Renderer(object):
                 continue
             if lab in ('b_last', 'b_last_semi'):
                 first_tok = len(self.p.toks)
+                if self.scope is None:
+                    self.p.line_starts.add(first_tok)
                 st = self.node(ks[0])
                 stats.append(st)
                 if lab == 'b_last_semi':
@@ -1213,3 +1220,35 @@ def tight_layout(prog):
         ls = legal_seps(prog, g)
         seps[g] = ls[0] if ls else default_sep(prog, g)
     return assemble(prog, seps), seps
+
+
+def canonical_lines(prog, break_brackets=False):
+    """One statement per line, no indentation: list of lists of token indices."""
+    lines = []
+    cur = []
+    n = len(prog.toks)
+    for i in range(n):
+        newline = i in prog.line_starts or i in prog.must_nl
+        if break_brackets and i > 0 and i not in prog.no_nl:
+            prev = prog.toks[i - 1].cls
+            if prev in ('{', '(', ',') or prog.toks[i].cls in ('}', ')'):
+                # never separate a call's '(' or a string/table argument from the callee's line here; only break
+                # inside brackets
+                newline = newline or prev in ('{', '(', ',') or prog.toks[i].cls in ('}', ')')
+        if newline and cur and i not in prog.no_nl:
+            lines.append(cur)
+            cur = []
+        cur.append(i)
+    if cur:
+        lines.append(cur)
+    return lines
+
+
+def line_text(prog, idxs):
+    out = []
+    for k, i in enumerate(idxs):
+        if k:
+            prev = prog.toks[idxs[k - 1]].text
+            out.append(b'' if False else b' ')
+        out.append(prog.toks[i].text)
+    return b''.join(out)
